@@ -85,6 +85,8 @@ def stream_public_stitch(ctx):
 def run(ctx, built):
     SS.stream_stitch(ctx, built, ctx.scale(250, 4000))
     stream_public_stitch(ctx)
+    import e2e_streams as ES
+    ES.stream_sampleN(ctx, built, ctx.scale(8, 100))
 
 
 def search(ctx, seeds):
